@@ -190,6 +190,7 @@ type derivOut struct {
 	fails    []dFail
 	regKeys  []string
 	fixed    bool // the sanitizer leaves every tag key and value of the Tagged calls unchanged
+	fixedH   []bool // per scope handle: the same for the Tagged calls of its own derivation chain
 	collide  bool
 	panicked string
 }
@@ -336,6 +337,7 @@ func derivRun(c *dCase) (o *derivOut) {
 	o.sep = san.Name(sepEff)
 	rt, rc := sanMap(c.RootTags)
 	o.idents = []ident{{prefix: san.Name(string(c.Prefix)), tags: rt, cands: rc}}
+	o.fixedH = []bool{true}
 
 	// the root
 	log := &Log{}
@@ -450,6 +452,7 @@ func derivRun(c *dCase) (o *derivOut) {
 				o.in = append(o.in, Ev{K: 1, I: []int64{int64(op.H)}, S: []string{string(op.Name)}})
 				s = parent.SubScope(string(op.Name))
 				o.idents = append(o.idents, ident{prefix: qualName(o.sep, pid.prefix, san.Name(string(op.Name))), tags: pid.tags, cands: pid.cands})
+				o.fixedH = append(o.fixedH, o.fixedH[op.H])
 			} else {
 				o.in = append(o.in, Ev{K: 2, I: []int64{int64(op.H)}, S: flatPairs(op.Tags)})
 				m := pairsMap(op.Tags)
@@ -476,6 +479,11 @@ func derivRun(c *dCase) (o *derivOut) {
 					nc[k] = v
 				}
 				o.idents = append(o.idents, ident{prefix: pid.prefix, tags: nt, cands: nc})
+				fx := o.fixedH[op.H]
+				for _, p := range op.Tags {
+					fx = fx && san.Key(string(p[0])) == string(p[0]) && san.Value(string(p[1])) == string(p[1])
+				}
+				o.fixedH = append(o.fixedH, fx)
 			}
 			cls := -1
 			for i, t := range scopes {
@@ -700,13 +708,15 @@ func derivC04(c *dCase, o *derivOut) []dFail {
 }
 
 // derivC05 evaluates the C05 predicates on pointer identities: equal
-// identities share one scope / metric, different identities never do.
+// identities share one scope / metric (for derivations through inputs the
+// sanitizer leaves unchanged, or with one shard), different identities never
+// do (whatever else was derived before, rewritten spellings included).
 func derivC05(c *dCase, o *derivOut) []dFail {
 	var fs []dFail
 	for j := range o.scopeCls {
 		for i := 0; i < j; i++ {
 			same := identEq(o.idents[i], o.idents[j])
-			if same && o.scopeCls[i] != o.scopeCls[j] {
+			if same && o.scopeCls[i] != o.scopeCls[j] && ((o.fixedH[i] && o.fixedH[j]) || c.Shards == 1) {
 				fs = append(fs, dFail{"same_identity_same_scope", fmt.Sprintf("scope handles %d and %d both denote (%q, %q) but are different scopes", i, j, o.idents[i].prefix, o.idents[i].tags)})
 			}
 			if !same && o.scopeCls[i] == o.scopeCls[j] {
@@ -717,11 +727,11 @@ func derivC05(c *dCase, o *derivOut) []dFail {
 	for j := range o.metCls {
 		for i := 0; i < j; i++ {
 			same := identEq(o.idents[o.metScope[i]], o.idents[o.metScope[j]]) && o.metKind[i] == o.metKind[j] && o.metName[i] == o.metName[j]
-			if same && o.metCls[i] != o.metCls[j] {
+			if same && o.metCls[i] != o.metCls[j] && ((o.fixedH[o.metScope[i]] && o.fixedH[o.metScope[j]]) || c.Shards == 1) {
 				fs = append(fs, dFail{"same_identity_same_metric", fmt.Sprintf("metric steps %d and %d ask the same scope identity for the same kind and name %q but got different metrics", i, j, o.metName[i])})
 			}
 			if !same && o.metCls[i] == o.metCls[j] {
-				fs = append(fs, dFail{"distinct_never_merge", fmt.Sprintf("metric steps %d and %d have different identities but share one metric", i, j)})
+				fs = append(fs, dFail{"distinct_never_merge", fmt.Sprintf("metric steps %d (scope (%q, %q), kind %d, name %q) and %d (scope (%q, %q), kind %d, name %q) have different identities but share one metric", i, o.idents[o.metScope[i]].prefix, o.idents[o.metScope[i]].tags, o.metKind[i], o.metName[i], j, o.idents[o.metScope[j]].prefix, o.idents[o.metScope[j]].tags, o.metKind[j], o.metName[j])})
 			}
 			if o.metCls[i] == o.metCls[j] && o.deliv[i].ok && o.deliv[j].ok && !sameDelivery(o.deliv[i], o.deliv[j]) {
 				fs = append(fs, dFail{"one_metric_one_delivery_identity", fmt.Sprintf("metric steps %d and %d share a metric delivered under %v and %v", i, j, o.deliv[i], o.deliv[j])})
@@ -889,7 +899,7 @@ func derivOne(ctx *Ctx, c *dCase, prop string) {
 	}
 	if prop == "C04" {
 		fails = append(fails, derivC04(c, o)...)
-	} else if !o.collide && o.fixed {
+	} else if !o.collide {
 		fails = append(fails, derivC05(c, o)...)
 	}
 	canonical := true
